@@ -31,7 +31,7 @@ ENGINES = {  # name -> number in Model/Engines.v
     "cli3": 39,
     "cli5": 40,
     "limiter": 35,
-    "payload": 41,
+    "payload": 41, "sized3": 13, "sized5": 23,
     "iostate": 36,
     "timerrt": 37,
     "hs": 38,
